@@ -5,6 +5,7 @@ use crate::worlda::{KeyCampaign, Source};
 use crate::worldb::{LoopCampaign, SourceB};
 use crate::wiresim::WireCampaign;
 use crate::storesim::StoreCampaign;
+use crate::worlde::E2ECampaign;
 use crate::rng::mix;
 
 pub fn claimed() -> Vec<&'static str> {
@@ -31,7 +32,23 @@ fn b_assumptions() -> Vec<String> {
   ]
 }
 
+/// The mapper-level properties are also checked end to end (world E).
 pub fn spec_for(id: &str) -> Option<CheckSpec> {
+  let mut s = spec_for_inner(id)?;
+  let e: Option<Box<dyn Campaign>> = match id {
+    "C01" | "C02" | "C05" | "C07" | "C19" => Some(Box::new(E2ECampaign::new(s.property, Source::Random, None, 60_000, 4_000_000))),
+    "C03" | "C04" => Some(Box::new(E2ECampaign::new(s.property, Source::Dist, Some(false), 60_000, 4_000_000))),
+    "C08" => Some(Box::new(E2ECampaign::new(s.property, Source::Dist, Some(true), 60_000, 4_000_000))),
+    _ => None,
+  };
+  if let Some(c) = e {
+    s.campaigns.push(c);
+    s.assumptions.push("end-to-end campaign (world E): the same oracle is evaluated on the outputs the real loop wrote for each delivered key event when the whole path evdev bytes -> real reader -> shipped RealDriver -> real loop -> real writer -> uinput bytes runs on pipes; batches are attributed to the key event read just before, timer chords are left to C11".to_string());
+  }
+  Some(s)
+}
+
+fn spec_for_inner(id: &str) -> Option<CheckSpec> {
   let k = |p: &'static str, s: Source, q: u64, t: u64| KeyCampaign::new(p, s, q, t);
   let spec = |property: &'static str, campaigns: Vec<Box<dyn Campaign>>, uses_r: bool| CheckSpec { property, level: "exploration", campaigns, assumptions: a_assumptions(uses_r), exhaustive_note: None };
   let b = |p: &'static str, s: SourceB, q: u64, t: u64| LoopCampaign::new(p, s, q, t);
